@@ -89,6 +89,36 @@ M = [
 		}
 ''', ''),
  # C04
+ ('C04-hand-unpindag-breaks-on-error', 'cluster.go',
+  '''		err = c.consensus.LogUnpin(ctx, api.PinCid(ci))
+		if err != nil {
+			return err
+		}
+	}
+	return nil
+}''', '''		err = c.consensus.LogUnpin(ctx, api.PinCid(ci))
+		if err != nil {
+			logger.Warn(err)
+			break
+		}
+	}
+	return nil
+}'''),
+ ('C04-hand-meta-unpin-ignores-dag-error', 'cluster.go',
+  '''		err := c.unpinClusterDag(pin)
+		if err != nil {
+			return pin, err
+		}
+		return pin, c.consensus.LogUnpin(ctx, pin)''', '''		if err := c.unpinClusterDag(pin); err != nil {
+			logger.Warn(err)
+		}
+		return pin, c.consensus.LogUnpin(ctx, pin)'''),
+ ('C04-hand-metapin-list-without-links', 'cluster.go',
+  '''	for _, l := range clusterDagNode.Links() {
+		list = append([]cid.Cid{l.Cid}, list...)
+	}
+''', '''	logger.Debugf("cluster DAG %s has %d links", clusterDagPin.Cid, len(clusterDagNode.Links()))
+'''),
  ('C04-hand-unpin-no-follower-guard', 'cluster.go',
   '''	ctx = trace.NewContext(c.ctx, span)
 
